@@ -56,7 +56,7 @@ def run(ctx):
             ctx.violation(v.bad, keep, "EndToEndProp clause %s broken at trace line %d: %s" % (v.bad, v.line, lines[v.line - 1][:300]))
             return
     for need in ("net:lose", "net:refuse", "net:slow", "dropped"):
-        if named.get(need, 0) == 0:
+        if named.get(need, 0) == 0 and not (ctx.violations or locals().get("fails")):  # no vacuity verdict once something was found
             raise vlib.MachineryError("vacuity: %s never reached" % need)
     ctx.cov["named_situations"] = named
     ctx.cov["rule"] = "hand-written core schedules plus seeded random schedules over {datagram, second passes, next request refused | response lost | slow | ok} x retry window x shards x slots"
